@@ -5,8 +5,8 @@ import (
 	"fmt"
 	"io"
 	"math"
-	"net/http"
 	"math/rand/v2"
+	"net/http"
 	"os"
 	"path/filepath"
 	"sync"
